@@ -1,2 +1,4 @@
 pub mod c26;
+pub mod c27;
+pub mod c28;
 pub mod common;
